@@ -1212,7 +1212,12 @@ async fn load_targets(
             max_targets_size,
             delegations,
             datastore,
-            &mut vec!["targets".to_owned()],
+            // A delegated role must not bear the name of a top-level role: its metadata file would
+            // take the place of that role's file in the datastore (and in the repository).
+            &mut ["root", "snapshot", "targets", "timestamp"]
+                .iter()
+                .map(|name| (*name).to_owned())
+                .collect(),
         )
         .await?;
     }
